@@ -112,7 +112,15 @@ def frame_to_abs(cid, pdu):
                 bad = True
         return ['ConfReq', f.identifier, f.destination_cid, rfc, bad]
     if n == 'L2CAP_Configure_Response':
-        return ['ConfRsp', f.identifier, f.source_cid, int(f.result)]
+        # what the options suggest: 0 nothing usable, 1 an MTU and/or "FCS off", 2 "FCS on"
+        sugg = 0
+        PT = l2cap.L2CAP_Configure_Request.ParameterType
+        for t, v in l2cap.L2CAP_Control_Frame.decode_configuration_options(f.options):
+            if t == PT.FCS and v[0] != 0:
+                sugg = 2
+            elif t in (PT.MTU, PT.FCS) and sugg == 0:
+                sugg = 1
+        return ['ConfRsp', f.identifier, f.source_cid, int(f.result), sugg]
     if n == 'L2CAP_Disconnection_Request':
         return ['DiscReq', f.identifier, f.destination_cid, f.source_cid]
     if n == 'L2CAP_Disconnection_Response':
@@ -154,8 +162,16 @@ def abs_to_frame(a):
             identifier=a[1], destination_cid=a[2], flags=0,
             options=l2cap.L2CAP_Control_Frame.encode_configuration_options(opts)))
     if k == 'ConfRsp':
-        return S, bytes(l2cap.L2CAP_Configure_Response(identifier=a[1], source_cid=a[2], flags=0, result=a[3],
-                                                       options=b''))
+        PT = l2cap.L2CAP_Configure_Request.ParameterType
+        opts = []
+        sugg = a[4] if len(a) > 4 else 0
+        if sugg >= 1:
+            opts.append((PT.MTU, struct.pack('<H', 672)))
+        if sugg == 2:
+            opts.append((PT.FCS, bytes([1])))
+        return S, bytes(l2cap.L2CAP_Configure_Response(
+            identifier=a[1], source_cid=a[2], flags=0, result=a[3],
+            options=l2cap.L2CAP_Control_Frame.encode_configuration_options(opts)))
     if k == 'DiscReq':
         return S, bytes(l2cap.L2CAP_Disconnection_Request(identifier=a[1], destination_cid=a[2], source_cid=a[3]))
     if k == 'DiscRsp':
@@ -325,6 +341,8 @@ class Mgr:
         if k == 'EnhReq':
             return len(set(a[4])) == len(a[4])
         if k in ('ConnRsp', 'ConfRsp'):
+            if k == 'ConfRsp' and len(a) > 4 and a[4] == 2:
+                return False        # a suggestion to switch FCS on is not a modelled frame
             c = chans.get(a[3] if k == 'ConnRsp' else a[2])
             return c is None or not is_le(c)
         if k == 'ConfReq':
@@ -729,7 +747,7 @@ def gen_foreign_frame(rng, w, m, h, ltype):
             answered.add(key)
             return ['DiscRsp', q[1], q[2], q[3]]
         if q[0] == 'ConfReq' and ltype == 'cl':
-            return ['ConfRsp', q[1], rng.choice([0x40, 0x41]), rng.choice([0] * 5 + [1, 2, 3])]
+            return ['ConfRsp', q[1], rng.choice([0x40, 0x41]), rng.choice([0] * 5 + [1, 1, 2, 3]), rng.choice([0, 1, 1])]
         return ['Reject', q[1]]
     peer_cid = rng.choice([0x40, 0x41, 0x42, 0x50, 0x51, 0x7F])
     local = rng.choice([0x40, 0x41, 0x42, 0x43])
@@ -746,7 +764,7 @@ def gen_foreign_frame(rng, w, m, h, ltype):
             return ['ConnReq', rng.range(1, 255), rng.choice([0x1001, 0x1001, 0x1003, 0x1005]), peer_cid]
         if rr < 8:
             return ['ConfReq', rng.range(1, 255), local, rng.choice([-1, -1, 0, 3]), rng.chance(1, 6)]
-        return ['ConfRsp', rng.range(1, 255), local, rng.choice([0] * 5 + [1, 2, 3])]
+        return ['ConfRsp', rng.range(1, 255), local, rng.choice([0] * 5 + [1, 1, 2, 3]), rng.choice([0, 1, 1])]
     if r < 92:
         # disconnection request for one of the manager's established channels (or a stray CID)
         filed = list(M.mgr.channels.get(h, {}).values())
@@ -1281,6 +1299,21 @@ def search(ctx):
 
 
 def replay(ctx, obj):
+    if 'replay' not in obj:
+        # a "no-failing-input-found" file: re-run the disagreeing histories on implementation and model
+        cases = []
+        for d in obj.get('disagreements', []):
+            c = (d.get('case') or {}).get('case')
+            if c:
+                cases.append(run_fixed(c['topo'], c['ltypes'], c['ops'], 'replay', with_audit=c.get('audit', False)))
+        evaluate_cases(ctx, cases)
+        print(f'{len(cases)} histories replayed: {len(ctx.disagreements)} model/implementation disagreements, '
+              f'{len(ctx.violations)} oracle violations')
+        for d in ctx.disagreements[:3]:
+            print('disagreement:', d['what'])
+        for pf in obj.get('proof_failures', []):
+            print('recorded proof failure:', pf[:300])
+        return 0
     r = obj['replay']
     if r.get('kind') == 'alloc':
         from bumble import l2cap
